@@ -182,6 +182,31 @@ Theorem warm_fetches_nothing : forall ser deser md5, format_roundtrips ser deser
 Proof. exact warm_fetches_nothing_l. Qed.
 Print Assumptions warm_fetches_nothing.
 
+(* the same for whole constructions (FileCache.__init__ with its version check, then
+   DefinitionsReader.open), over any directory that does not hold these entries yet or carries
+   another version's stamp: Client(...); time passes; Client(...) -- the second fetches nothing *)
+Theorem second_client_fetches_nothing : forall ser deser ver md5, format_roundtrips ser deser ->
+  forall q_none q_stale w k d d' pol u1 u2 f0 t dt,
+  (pol = 0%N \/ (pol = 1%N /\ k <> KXml)) -> (0 <= d)%Z -> fresh d' t (t + dt) = true ->
+  (ver_ok ver f0 = true ->
+     (forall u, In u (w_docs w) -> f0 (fname k (mangle (md5 u) s_document)) = None)
+     /\ f0 (fname k (mangle (md5 (w_main w)) s_wsdl)) = None) ->
+  match crun ser deser ver md5 q_none q_stale w (f0, t)
+             [CClient k d pol u1; CAdvance dt; CClient k d' pol u2] with
+  | [(_, Some (_, _)); _; (_, Some (fetched, _))] => fetched = []
+  | _ => False
+  end.
+Proof. exact second_client_fetches_nothing_l. Qed.
+Print Assumptions second_client_fetches_nothing.
+
+Example second_client_nonvacuous :
+  map snd (crun toy_ser toy_deser [49]%N (fun u => [u]%N) false false (mkworld 1 [1; 2; 3]%N [true] true)
+                (fs_empty, 0%Z) [CClient KXml 10 0 true; CAdvance 10; CClient KXml 10 0 false; CAdvance 1;
+                                 CClient KXml 10 0 true])
+  = [Some ([1; 2; 3]%N, COk true true); None; Some ([], COk true false); None;
+     Some ([1; 2; 3]%N, COk true true)].
+Proof. vm_compute. reflexivity. Qed.
+
 (* any other policy value: no reader uses the cache, the directory is not touched *)
 Theorem other_policy_no_cache : forall ser deser md5 q_none q_stale c pol t w unwrap f,
   pol <> 0%N -> pol <> 1%N ->
